@@ -160,12 +160,29 @@ func (c *FuncCtx) merge2(a, b *State) *State {
 		m.heap[k] = t
 	}
 	// allocation bookkeeping: keep what both agree on
-	for k, v := range a.bound {
+	// (where the two paths disagree the joined frontier is some value not below
+	// either one)
+	fk := map[string]bool{}
+	for k := range a.bound {
 		if strings.HasPrefix(k, "$alloc_") {
-			if w, ok := b.bound[k]; !ok || w.S != v.S {
-				delete(m.bound, k)
-			}
+			fk[k] = true
 		}
+	}
+	for k := range b.bound {
+		if strings.HasPrefix(k, "$alloc_") {
+			fk[k] = true
+		}
+	}
+	for _, k := range sortedKeys(fk) {
+		sn := strings.TrimPrefix(k, "$alloc_")
+		fa, fb := c.frontier(a, sn), c.frontier(b, sn)
+		if fa == fb {
+			continue
+		}
+		f := c.fresh("frontier_"+sn, "Int")
+		m.assumeRaw(app(">=", f, fa))
+		m.assumeRaw(app(">=", f, fb))
+		m.bound[k] = &Val{S: f, Sort: "Int"}
 	}
 	seen := map[string]bool{}
 	m.allocs = nil
